@@ -173,6 +173,9 @@ def check_cfg(ctx, fx, cfg):
         ctx.require(r.startswith("actor::service::"), "R08.1", "registry-user:%s@%s" % (r, cfg), "the service registry is accessed outside the registry operations of actor::service", fn=r, site=fx.fn(r)["loc"] if fx.fn(r) else None)
     if cfg != "bare":
         check_forwarders(ctx, fx, cfg, None)
+    # R08.6 the liveness the registry decides on is truthful for every termination cause (shared with C14)
+    from props import c14
+    c14.check_queries(ctx, fx, "R08.6", "@" + cfg)
     A = registry_alphabet()
     for f in users:
         b = ctx.body(fx, f)
